@@ -97,3 +97,13 @@ chk("C13",
     "Trusted: the same-run differential (both executions share the symbols); failures inside backward() are outside. Quick keeps every "
     "third (program, position, kind) triple.",
     "fault-point enumeration + symbolic execution + differential SMT equality", "DESIGN §3 C13")
+chk("C14",
+    "Seeding: 11 terminal tensors (shapes (), (1,), (2,), (3,), (1,3), (2,1), (2,3), (2,1,3), a transposed view and a 0-d view) x 8 accepted "
+    "seed kinds (none, Python scalar, 0-d, same-shape, two broadcastable shapes, Tensor, constant Tensor, nested list) with SYMBOLIC seed "
+    "values: z3 decides for all inputs and seeds that L.backward() == L.sum().backward() and L.backward(g) == (L*g).sum().backward() "
+    "leaf by leaf; 4 non-broadcastable seeds (longer axis, extra leading axis, enlarging a size-1 axis, wrong length) must raise "
+    "ValueError and leave every .grad None. Type/shape: every stored gradient on every path of every C02 case (all ops, 0-d, layers, "
+    "gru) is an ndarray of exactly the tensor's shape. Dtype: every C02 case body with float16/32/64 leaves in the dtype lane.",
+    "The dtype lane is degenerate symbolic execution (all variables are selectors, no solver): it relies on NEP 50 (result dtypes do not "
+    "depend on values). Known finding: gru's output tensor reads a gradient of shape (T,N,D).",
+    "symbolic execution + SMT equivalence of two formulations with symbolic seeds; enumeration for type/shape/dtype facts", "DESIGN §3 C14")
